@@ -493,7 +493,13 @@ func c20WatchCases(r *Run, pool *c20Pool) error {
 			// naming a present peer twice.  See NOTES.md.
 			snaps = [][]int{{1}, {1, 1}, {1}}
 		}
-		self := pool.id(len(pool.ids)) // the local peer never appears in the snapshots
+		self := pool.id(len(pool.ids)) // the local peer does not appear in the snapshots ...
+		if si%3 == 2 {
+			// ... or it does (a CoreAPI implementation that lists the local node among the
+			// members of a topic): for the adapter it is a member like any other
+			self = pool.id(1 + r.Rng.Intn(u))
+			r.Count("watch:self-listed-in-snapshots")
+		}
 		topicName := fmt.Sprintf("/orbitdb/verif/topic-%d", si)
 		// poll interval: none at all (the next poll follows at once), far below and around the
 		// time one poll takes, and longer
